@@ -237,7 +237,7 @@ func (h *H) waitParked() {
 func (h *H) selfTestWatcher() {
 	p := contextscope.New()
 	c := contextscope.NewIsolated(p)
-	deadline := time.Now().Add(2 * time.Second)
+	deadline := time.Now().Add(10 * time.Second)
 	ok := false
 	for time.Now().Before(deadline) {
 		if parkedWatchers() == 1 {
